@@ -184,7 +184,7 @@ pub fn finalize(mut c: Case) -> Case {
     }
     // settle window: everything that was accepted can be handled
     let h = crate::interp::horizon_of(&c);
-    c.settle = (h / 4).min(100_000) as u32 + 1;
+    c.settle = (h / 2).min(100_000) as u32 + 1;
     c
 }
 
@@ -928,6 +928,114 @@ pub fn c08(big: bool) -> BoxedStrategy<Case> {
         .boxed()
 }
 
+pub fn c09(big: bool) -> BoxedStrategy<Case> {
+    let max_ops = if big { 12 } else { 8 };
+    let sub_spawn = prop_oneof![3 => Just(SpawnSpec::Spawn), 1 => (0u8..=2).prop_map(|n| SpawnSpec::Build { mailbox: Mailbox::Bounded(n), strategy: RStrat::Default, timeout: None, fail_on_timeout: false, owning: false })];
+    let sub_started = prop_oneof![2 => Just(vec![]), 5 => Just(vec![Step::Subscribe(0)]), 1 => Just(vec![Step::Subscribe(1)]), 2 => Just(vec![Step::Subscribe(0), Step::Subscribe(1)])];
+    let topic = prop_oneof![5 => Just(0u8), 1 => Just(1u8)];
+    let how = prop_oneof![Just(PubHow::Static), Just(PubHow::ViaAddr)];
+    let op = prop_oneof![
+        45 => (how, topic.clone()).prop_map(|(how, topic)| ClientOp::Publish { how, topic, id: 0 }),
+        14 => (h(), topic.clone()).prop_map(|(h, topic)| ClientOp::SubscribeFor { h, topic }),
+        8 => (h(), topic.clone()).prop_map(|(h, topic)| ClientOp::UnsubscribeFor { h, topic }),
+        8 => topic.clone().prop_map(|topic| ClientOp::BrokerPing { topic }),
+        2 => h().prop_map(|h| ClientOp::Stop { h }),
+        2 => h().prop_map(|h| ClientOp::Drop { h }),
+        8 => (h(), topic, any::<bool>()).prop_map(|(h, topic, call)| {
+            let work = vec![Step::Publish { topic, id: 0 }];
+            if call { ClientOp::Call { h, work } } else { ClientOp::Send { h, work } }
+        }),
+        3 => (h(), work(1, 2)).prop_map(|(h, work)| ClientOp::Send { h, work }),
+        5 => Just(ClientOp::Yield),
+        4 => (0u32..3).prop_map(ClientOp::Sleep),
+    ];
+    (vec((sub_spawn, sub_started), 1..=4), 1usize..=3)
+        .prop_flat_map(move |(subs, n)| (Just(subs), vec(vec(op.clone(), 3..=max_ops), n..=n), schedule(if big { 128 } else { 64 })))
+        .prop_map(|(subs, mut clients, schedule)| {
+            let actors: Vec<ActorSpec> = subs.into_iter().map(|(spawn, started)| ActorSpec { kind: 0, spawn, parent: None, beh: Behavior { started, ..Default::default() }, peer: None }).collect();
+            let mut grants = vec![];
+            for c in 0..clients.len() {
+                for a in 0..actors.len() {
+                    grants.push(Grant { client: c, actor: a, kind: HKind::Addr });
+                }
+            }
+            // unique publication ids
+            let mut next = 1;
+            for cl in &mut clients {
+                for op in cl.iter_mut() {
+                    match op {
+                        ClientOp::Publish { id, .. } => {
+                            *id = next;
+                            next += 1;
+                        }
+                        ClientOp::Send { work, .. } | ClientOp::Call { work, .. } => {
+                            for s in work.iter_mut() {
+                                if let Step::Publish { id, .. } = s {
+                                    *id = next;
+                                    next += 1;
+                                }
+                            }
+                        }
+                        _ => {}
+                    }
+                }
+            }
+            let mut c = finalize(Case { family: Family::C09, actors, default_beh: vec![], grants, clients, faults: vec![], schedule, settle: 0 });
+            c.settle += 20;
+            c
+        })
+        .boxed()
+}
+
+pub fn c06(big: bool) -> BoxedStrategy<Case> {
+    let max_ops = if big { 9 } else { 6 };
+    let t_spawn = prop_oneof![
+        1 => Just(SpawnSpec::Spawn),
+        1 => Just(SpawnSpec::SpawnOwning),
+        4 => (mailbox(), any::<bool>()).prop_map(|(mailbox, owning)| SpawnSpec::Build { mailbox, strategy: RStrat::Default, timeout: None, fail_on_timeout: false, owning }),
+        2 => Just(SpawnSpec::Register { builder: None }),
+    ];
+    let reg = prop_oneof![Just(ChildReg::Unit), Just(ChildReg::Msg0)];
+    let kids = vec((reg, proptest::bool::weighted(0.3)), 0..=3);
+    let base = OpWeights { send: 20, call: 26, ping: 6, convert: 8, yield_: 5, sleep: 5, give: 1, drop: 2, stop: 2, halt: 1, try_stop: 1, await_: 5, join: 3, max_sleep: 6, ..MSG_WEIGHTS };
+    let peer_call = (h(), any::<bool>()).prop_map(|(h, call)| {
+        let work = vec![Step::CallPeer];
+        if call { ClientOp::Call { h, work } } else { ClientOp::Send { h, work } }
+    });
+    let op = mixed_ops(base, vec![(14, peer_call.boxed()), (8, reg_op(1, [3, 0, 0, 0, 0, 3, 2]))]);
+    (t_spawn, started_with_timers(2), kids, any::<bool>(), 1usize..=3)
+        .prop_flat_map(move |(spawn, started, kids, bystander, n)| {
+            (Just(spawn), Just(started), Just(kids), Just(bystander), vec(vec(op.clone(), 2..=max_ops), n..=n), vec(vec(grant_kind(1), 1..=2), n..=n), schedule(if big { 64 } else { 32 }))
+        })
+        .prop_map(|(spawn, started, kids, bystander, clients, per, schedule)| {
+            let owning = spawn.owning();
+            let mut actors = one_actor(spawn, Behavior { started, ..Default::default() });
+            for (under, outside) in kids {
+                actors.push(ActorSpec { kind: 0, spawn: SpawnSpec::Spawn, parent: Some(ChildOf { parent: 0, under, outside }), beh: Behavior::default(), peer: None });
+            }
+            let mut grants = vec![];
+            if owning {
+                grants.push(Grant { client: 0, actor: 0, kind: HKind::Owning });
+            }
+            grants.push(Grant { client: 0, actor: 0, kind: HKind::Addr });
+            for (c, kinds) in per.into_iter().enumerate() {
+                for kind in kinds {
+                    grants.push(Grant { client: c, actor: 0, kind });
+                }
+            }
+            if bystander {
+                let b = actors.len();
+                actors.push(ActorSpec { kind: 0, spawn: SpawnSpec::Spawn, parent: None, beh: Behavior::default(), peer: Some(0) });
+                for c in 0..clients.len() {
+                    grants.push(Grant { client: c, actor: b, kind: HKind::Addr });
+                    grants.push(Grant { client: c, actor: b, kind: HKind::Caller });
+                }
+            }
+            finalize(Case { family: Family::C06, actors, default_beh: vec![], grants, clients, faults: vec![], schedule, settle: 0 })
+        })
+        .boxed()
+}
+
 pub fn strategy(family: Family, big: bool) -> BoxedStrategy<Case> {
     match family {
         Family::C01 => c01(big),
@@ -935,8 +1043,10 @@ pub fn strategy(family: Family, big: bool) -> BoxedStrategy<Case> {
         Family::C03 => c03(big),
         Family::C04 => c04(big),
         Family::C05 => c05(big),
+        Family::C06 => c06(big),
         Family::C07 => c07(big),
         Family::C08 => c08(big),
+        Family::C09 => c09(big),
         Family::C10 => c10(big),
         Family::C11 => c11(big),
         Family::C12 => c12(big),
@@ -945,6 +1055,5 @@ pub fn strategy(family: Family, big: bool) -> BoxedStrategy<Case> {
         Family::C15 => c15(big),
         Family::C16 => c16(big),
         Family::C17 => c17(big),
-        _ => c01(big),
     }
 }
